@@ -220,6 +220,27 @@ var rR8 = RuleRef{Name: "R8", Doc: "exactly one reply write per command: on ever
 				}
 				s = n
 			}
+			// a local closure called in place (reply := func(..){ conn.Write(..) }): its writes count at the call
+			if call, ok := in.(*ssa.Call); ok {
+				if mc, ok := call.Call.Value.(*ssa.MakeClosure); ok {
+					if cl, ok := mc.Fn.(*ssa.Function); ok && cl.Parent() == fn && syncLocalClosure(fn, cl) {
+						if sum := closureWriteCounts(cl); len(sum) > 0 && !(len(sum) == 1 && sum["0"]) {
+							n := Set{}
+							for st := range s {
+								for k := range sum {
+									w := int(st[3]-'0') + int(k[0]-'0')
+									if w > 2 {
+										w = 2
+									}
+									n[fmt.Sprintf("%sw%d", st[:2], w)] = true
+								}
+							}
+							nWritesViaHelper++
+							return n, false
+						}
+					}
+				}
+			}
 			// a helper that writes to this connection: composed through its write-count summary
 			if call, ok := in.(*ssa.Call); ok {
 				if cf := callee(call); cf != nil && firstParty(cf) && pkgRel(cf) == "server" && !isDispatcherParent(c, cf) {
@@ -279,6 +300,9 @@ var rR8 = RuleRef{Name: "R8", Doc: "exactly one reply write per command: on ever
 		// no write on this connection from closures (spawned goroutines)
 		var stray []string
 		for _, a := range fn.AnonFuncs {
+			if syncLocalClosure(fn, a) {
+				continue // runs in place on the handler's goroutine; its writes were counted at the calls above
+			}
 			for _, b := range a.Blocks {
 				for _, in := range b.Instrs {
 					if isConnWrite(in, nil) {
@@ -301,6 +325,9 @@ var rR8 = RuleRef{Name: "R8", Doc: "exactly one reply write per command: on ever
 	for _, fn := range c.P.allFuncs("server") {
 		if isH[fn] {
 			continue
+		}
+		if par := fn.Parent(); par != nil && isH[par] && syncLocalClosure(par, fn) {
+			continue // a local reply helper of a handler, counted there
 		}
 		// a reply helper: every caller is a connection handler passing its own connection
 		helperOK := connParam(fn) != nil && fn.Parent() == nil
@@ -341,6 +368,7 @@ var rR8 = RuleRef{Name: "R8", Doc: "exactly one reply write per command: on ever
 		}
 		n++
 		var bad []string
+		seenTable := map[*ssa.Function]bool{}
 		var visit func(v ssa.Value, depth int)
 		visit = func(v ssa.Value, depth int) {
 			if v.Referrers() == nil || depth > 4 {
@@ -362,8 +390,25 @@ var rR8 = RuleRef{Name: "R8", Doc: "exactly one reply write per command: on ever
 					if cf != nil && firstParty(cf) && connParam(cf) != nil && pkgRel(cf) == "memdb" {
 						continue // forwarded to a sibling executor, itself checked
 					}
-					if mc, ok := cc.Value.(*ssa.MakeClosure); ok {
-						_ = mc
+					// dispatch through a package-level table of sub-command functions: every entry is judged
+					if g, _ := lookupOfGlobalMap(cc.Value); g != nil {
+						if ents, ok := c.globalMapInit(g); ok && len(ents) > 0 {
+							allOK := true
+							for _, e := range ents {
+								tf, isFn := stripConv(e.Val).(*ssa.Function)
+								if !isFn || !firstParty(tf) || connParam(tf) == nil || pkgRel(tf) != "memdb" {
+									allOK = false
+									continue
+								}
+								if !seenTable[tf] {
+									seenTable[tf] = true
+									visit(connParam(tf), depth+1)
+								}
+							}
+							if allOK {
+								continue
+							}
+						}
 					}
 					bad = append(bad, c.pos(r.Pos())+": connection passed to "+fmt.Sprint(cc.Value))
 				case *ssa.Store:
@@ -452,6 +497,34 @@ func derivesFromCall(v ssa.Value, target *ssa.Function, depth int) bool {
 	backslice(v, func(x ssa.Value) bool {
 		if found {
 			return false
+		}
+		// a field of a result record of a first-party helper: what the helper stored into that field
+		if fld, isF := x.(*ssa.Field); isF {
+			for _, src := range structFieldSources(fld.X, fld.Field) {
+				if derivesFromCall(src, target, depth+1) {
+					found = true
+				}
+			}
+			if found {
+				return false
+			}
+		}
+		// the same through a local record variable: fr := helper(...); use(fr.cmd)
+		if fa, isFA := x.(*ssa.FieldAddr); isFA {
+			if al, isAl := fa.X.(*ssa.Alloc); isAl && al.Referrers() != nil {
+				for _, r := range *al.Referrers() {
+					if st, ok := r.(*ssa.Store); ok && st.Addr == ssa.Value(al) {
+						for _, src := range structFieldSources(st.Val, fa.Field) {
+							if derivesFromCall(src, target, depth+1) {
+								found = true
+							}
+						}
+					}
+				}
+				if found {
+					return false
+				}
+			}
 		}
 		call, ok := x.(*ssa.Call)
 		if !ok {
@@ -637,4 +710,126 @@ func isDispatcherParent(c *C, fn *ssa.Function) bool {
 		}
 	}
 	return false
+}
+
+
+// syncLocalClosure: cl is an anonymous function of parent that is only ever called directly, in place (never started
+// as a goroutine, deferred, stored or passed on): a local helper whose body runs on the caller's goroutine at the call.
+func syncLocalClosure(parent, cl *ssa.Function) bool {
+	found := false
+	for _, b := range parent.Blocks {
+		for _, in := range b.Instrs {
+			mc, ok := in.(*ssa.MakeClosure)
+			if !ok || mc.Fn != ssa.Value(cl) {
+				continue
+			}
+			found = true
+			if mc.Referrers() == nil {
+				return false
+			}
+			for _, r := range *mc.Referrers() {
+				switch x := r.(type) {
+				case *ssa.DebugRef:
+				case *ssa.Call:
+					if x.Call.Value != ssa.Value(mc) {
+						return false
+					}
+				default:
+					return false
+				}
+			}
+		}
+	}
+	return found
+}
+
+// closureWriteCounts: the possible numbers of net.Conn Write calls over the paths of a closure body (0, 1, 2 = many).
+func closureWriteCounts(cl *ssa.Function) Set {
+	tr := func(in ssa.Instruction, s Set) (Set, bool) {
+		if noReturnCall(in) {
+			return nil, true
+		}
+		if isConnWrite(in, nil) {
+			n := Set{}
+			for st := range s {
+				w := int(st[0]-'0') + 1
+				if w > 2 {
+					w = 2
+				}
+				n[fmt.Sprint(w)] = true
+			}
+			return n, false
+		}
+		return s, false
+	}
+	fl := &Flow{Fn: cl, Must: false, Entry: Set{"0": true}, Transfer: tr}
+	fl.Run()
+	out := Set{}
+	for _, b := range cl.Blocks {
+		if len(b.Instrs) == 0 {
+			continue
+		}
+		if ret, ok := b.Instrs[len(b.Instrs)-1].(*ssa.Return); ok {
+			if st, live := fl.Before(ret); live {
+				for k := range st {
+					out[k] = true
+				}
+			}
+		}
+	}
+	return out
+}
+
+
+// structFieldSources: fld reads field k of a struct value that a first-party helper returned (directly or as one of
+// several results); the values the helper stored into field k of the records it returns.
+func structFieldSources(rec ssa.Value, field int) []ssa.Value {
+	var call *ssa.Call
+	idx := 0
+	switch y := rec.(type) {
+	case *ssa.Call:
+		call = y
+	case *ssa.Extract:
+		if c2, ok := y.Tuple.(*ssa.Call); ok {
+			call, idx = c2, y.Index
+		}
+	}
+	if call == nil {
+		return nil
+	}
+	cf := call.Call.StaticCallee()
+	if cf == nil || !firstParty(cf) || cf.Blocks == nil {
+		return nil
+	}
+	var out []ssa.Value
+	for _, b := range cf.Blocks {
+		for _, in := range b.Instrs {
+			ret, ok := in.(*ssa.Return)
+			if !ok || idx >= len(ret.Results) {
+				continue
+			}
+			for _, rv := range retResults(ret)[idx] {
+				u, ok := rv.(*ssa.UnOp)
+				if !ok {
+					continue
+				}
+				al, ok := u.X.(*ssa.Alloc)
+				if !ok || al.Referrers() == nil {
+					continue
+				}
+				for _, r := range *al.Referrers() {
+					fa, ok := r.(*ssa.FieldAddr)
+					if !ok || fa.Field != field || fa.Referrers() == nil {
+						continue
+					}
+					for _, rr := range *fa.Referrers() {
+						if st, ok := rr.(*ssa.Store); ok && st.Addr == ssa.Value(fa) {
+							out = append(out, st.Val)
+						}
+					}
+				}
+			}
+		}
+	}
+	return out
 }
